@@ -73,8 +73,39 @@ Definition finish (c : cfg) (s : st) (fx r0 r1 g0 g1 : R) (b : bool) (nxt : R) :
          else SCont (mkst (x1 s) (x2 s) n fx r0 r1 g0 g1 b)
        else SCont (mkst (x1 s) (x2 s) n fx r0 r1 g0 g1 b).
 
+(* update of root_bounds / func_at_bounds with the latest iterate and its function value:
+   returns (root_bounds[0], func_at_bounds[0], root_bounds[1], func_at_bounds[1]) *)
+Definition upd_bracket (s : st) (fx : R) : R * R * R * R :=
+  if Rlt_dec (x2 s) (rb0 s) then (x2 s, fx, rb1 s, fb1 s)
+  else if Rgt_dec (x2 s) (rb1 s) then (rb0 s, fb0 s, x2 s, fx)
+  else if Rlt_dec (fb0 s * fx) 0 then (rb0 s, fb0 s, x2 s, fx)
+  else if Rlt_dec (fb1 s * fx) 0 then (x2 s, fx, rb1 s, fb1 s)
+  else (rb0 s, fb0 s, rb1 s, fb1 s).
+
 Section Solver.
   Variable f : R -> option R.
+
+  (* derivative estimate: secant when bracketed (after the first pass), else forward difference.
+     None = the function raises; Some None = division by zero *)
+  Definition derivative (c : cfg) (it : nat) (s : st) (fx : R) (b : bool) : option (option R) :=
+    if andb b (Nat.ltb 1 it) then
+      if Req_EM_T (x2 s - x1 s) 0 then Some None
+      else Some (Some ((fx - fprev s) / (x2 s - x1 s)))
+    else
+      let h := if c_relstep c then x2 s * c_step c else c_step c in
+      match f (x2 s + h) with
+      | None => None
+      | Some fh => if Req_EM_T h 0 then Some None else Some (Some ((fh - fx) / h))
+      end.
+
+  (* Aitken extrapolation from the last three iterates *)
+  Definition aitken_next (s : st) : option R :=
+    let num := x2 s - x1 s in
+    let den := x1 s - x0 s in
+    if Req_EM_T den 0 then None
+    else let ratio := num / den in
+         if Req_EM_T (1 - ratio) 0 then None
+         else Some (x2 s + ratio / (1 - ratio) * num).
 
   (* one pass through the loop body, [it] = current_iteration (starts at 1) *)
   Definition step (c : cfg) (it : nat) (s : st) : sres :=
@@ -83,34 +114,14 @@ Section Solver.
     | Some fx =>
       if andb (c_aitken c) (Nat.eqb (it mod 3) 0) then
         (* Aitken step: bounds and root_bounded are left untouched *)
-        let num := x2 s - x1 s in
-        let den := x1 s - x0 s in
-        if Req_EM_T den 0 then SFail DivZero
-        else let ratio := num / den in
-             if Req_EM_T (1 - ratio) 0 then SFail DivZero
-             else finish c s fx (rb0 s) (rb1 s) (fb0 s) (fb1 s) (bnd s)
-                         (x2 s + ratio / (1 - ratio) * num)
+        match aitken_next s with
+        | None => SFail DivZero
+        | Some nxt => finish c s fx (rb0 s) (rb1 s) (fb0 s) (fb1 s) (bnd s) nxt
+        end
       else
-        (* update of the bracket *)
-        let '(r0, g0, r1, g1) :=
-          if Rlt_dec (x2 s) (rb0 s) then (x2 s, fx, rb1 s, fb1 s)
-          else if Rgt_dec (x2 s) (rb1 s) then (rb0 s, fb0 s, x2 s, fx)
-          else if Rlt_dec (fb0 s * fx) 0 then (rb0 s, fb0 s, x2 s, fx)
-          else if Rlt_dec (fb1 s * fx) 0 then (x2 s, fx, rb1 s, fb1 s)
-          else (rb0 s, fb0 s, rb1 s, fb1 s) in
+        let '(r0, g0, r1, g1) := upd_bracket s fx in
         let b := sgn_lt0 g0 g1 in
-        (* derivative: secant when bracketed (after the first pass), else forward difference *)
-        let deriv : option (option R) :=      (* None = raises; Some None = division by zero *)
-          if andb b (Nat.ltb 1 it) then
-            if Req_EM_T (x2 s - x1 s) 0 then Some None
-            else Some (Some ((fx - fprev s) / (x2 s - x1 s)))
-          else
-            let h := if c_relstep c then x2 s * c_step c else c_step c in
-            match f (x2 s + h) with
-            | None => None
-            | Some fh => if Req_EM_T h 0 then Some None else Some (Some ((fh - fx) / h))
-            end in
-        match deriv with
+        match derivative c it s fx b with
         | None => SFail FunRaise
         | Some None => SFail DivZero
         | Some (Some d) =>
@@ -318,7 +329,7 @@ Definition test_fun (kind : nat) (a b c : R) (x : R) : option R :=
 Definition run_test (kind : nat) (a b c : R) (cf : cfg) (guess : R) : status :=
   newton (test_fun kind a b c) cf guess.
 
-(* toy generation field  G[i,j] = E[i,j] * amp * u^2 * s(u) * lobe(dir)  with the shape functions
+(* toy generation field  G[i,j] = E[i,j] * amp * u^2 * s(u) * (1 + q cos(dir - d0))  with the shape functions
    below; used to drive the real _u10_from_bulk_rate_point with analytic source terms *)
 Definition toy_shape (kind : nat) (a b : R) (u : R) : R :=
   match kind with
@@ -329,6 +340,6 @@ Definition toy_shape (kind : nat) (a b : R) (u : R) : R :=
   | _ => a
   end.
 
-Definition toy_gen (kind : nat) (amp a b : R) (E : list (list R)) (dir u : R) : option (list (list R)) :=
-  let h := amp * u * u * toy_shape kind a b u in
+Definition toy_gen (kind : nat) (amp a b q d0 : R) (E : list (list R)) (dir u : R) : option (list (list R)) :=
+  let h := amp * u * u * toy_shape kind a b u * (1 + q * cos ((dir - d0) * PI / 180)) in
   Some (map (fun row => map (fun e => e * h) row) E).
